@@ -33,6 +33,9 @@ type c19Case struct {
 	ULBurst  uint64 `json:"ulburst,omitempty"`
 	DLBurst  uint64 `json:"dlburst,omitempty"`
 	ClaimLen int    `json:"claimlen,omitempty"` // Content-Length for the truncated kind
+	// Repeat: the same request is sent a second time (a control plane that pushes its configuration again, or
+	// retries after a failure it saw elsewhere): every well-formed PUT/POST programs the datapath, not only the first
+	Repeat bool `json:"repeat,omitempty"`
 }
 
 var unitMul = map[string]uint64{"bps": 1, "Kbps": 1000, "Mbps": 1000000, "Gbps": 1000000000}
@@ -92,6 +95,7 @@ func genC19(t *rapid.T) c19Case {
 			c.Body = `{"sliceName":"slice1","sliceQos":{"uplinkMbr":100,"downlinkMbr":200,"bitrateUnit":"Mbps"}}`
 		}
 	}
+	c.Repeat = rapid.IntRange(0, 3).Draw(t, "repeat") == 0
 	return c
 }
 
@@ -181,6 +185,18 @@ func sliceRig(c c19Case) (*Rig, error) {
 }
 
 func runC19(c c19Case, ev *Ev) error {
+	if c.Repeat {
+		once := c
+		once.Repeat = false
+		if err := runC19(once, ev); err != nil {
+			return err
+		}
+		if err := runC19(once, newEv("C19")); err != nil {
+			return fmt.Errorf("the same request sent a second time: %w", err)
+		}
+		ev.Label("repeated")
+		return nil
+	}
 	r, err := sliceRig(c)
 	if err != nil {
 		return fmt.Errorf("INFRA: %v", err)
